@@ -50,7 +50,7 @@ Notation value := (@value F).
 Notation store := (@store F).
 Notation exec := (@exec F OF feq stop).
 
-Ltac ev := cbn [LoopIR.exec LoopIR.eval eval_opt get set nth bind try asZ asArr asF ok err fst snd arith arithZ fop compare cmpZ eqne truthy
+Ltac ev := cbn [LoopIR.exec LoopIR.eval eval_opt get set nth bind try asZ asArr asF ok err fst snd arith arithZ fop compare cmpF cmpZ eqne truthy
                 eval_list Z.opp].
 
 (* the array part of the result; a = anxt[1:] (non-empty), m = len a - 1, k = a[m] *)
